@@ -397,7 +397,11 @@ func (m *ParseModel) Call(mc *Machine, st *State, call ssa.CallInstruction, call
 		e := m.ev(in, "advance", nil, "")
 		return []Outcome{{Result: Sym("adv" + valName), Apply: func(s *State) { m.annotate(s, e); m.consumed(s, "advance"); m.Emit(s, e) }}}, true
 	case "error":
-		e := m.ev(in, "error", argStrings(args[1:]), "")
+		eargs := args
+		if callee.Signature.Recv() != nil {
+			eargs = args[1:] // without the parser itself
+		}
+		e := m.ev(in, "error", argStrings(eargs), "")
 		return []Outcome{{Result: Sym("perr" + valName), Apply: func(s *State) {
 			m.annotate(s, e)
 			s.Facts["c:(perr"+valName+" == nil)"] = BoolV(false)
@@ -534,7 +538,11 @@ func (m *ParseModel) Branch(mc *Machine, st *State, in *ssa.If, cond AV, taken b
 	if ex, ok := in.Cond.(*ssa.Extract); ok && ex.Index == 1 {
 		if ta, ok := ex.Tuple.(*ssa.TypeAssert); ok {
 			subj := mc.eval(st, st.Top(), ta.X)
-			e := m.ev(in, "typetest", []string{subj.String(), typeStr(ta.AssertedType)}, fmt.Sprint(taken))
+			tested := typeStr(ta.AssertedType)
+			if ty, known := st.Facts["type:"+subj.S]; known && taken && subj.K == KSym && isInterfaceType(ta.AssertedType) {
+				tested = ty.S // the test for an interface of the module succeeded on a path that knows the node's type
+			}
+			e := m.ev(in, "typetest", []string{subj.String(), tested}, fmt.Sprint(taken))
 			m.annotate(st, e)
 			m.Emit(st, e)
 			return
@@ -610,6 +618,7 @@ func ExploreParseFn(p *Prog, fn *ssa.Function) (*ParseModel, *Machine) {
 	m := NewParseModel(p, fn)
 	mc := NewMachine(p, m)
 	mc.ForkTables = true
+	mc.ForkIfaceAsserts = true
 	m.Attach(mc)
 	var params []AV
 	for _, prm := range fn.Params {
